@@ -292,6 +292,15 @@ impl<A: Read + Write + io::Seek> ZipWriter<A> {
         let (archive_offset, directory_start, number_of_files) =
             ZipArchive::get_directory_counts(&mut readwriter, &footer, cde_start_pos)?;
 
+        // The central directory precedes the end record. An offset past it would make the
+        // writer (re)write the directory at an arbitrary position chosen by the archive,
+        // growing the underlying storage up to that position.
+        if directory_start > cde_start_pos {
+            return Err(ZipError::InvalidArchive(
+                "Invalid central directory size or offset",
+            ));
+        }
+
         if readwriter
             .seek(io::SeekFrom::Start(directory_start))
             .is_err()
